@@ -193,7 +193,7 @@ def explore(make, roots, depth, env, label, describe=None):
         bad = []
         ops = prefix
         if op is not None:
-            if w.canon() != c0:
+            if c0 is not None and w.canon() != c0:
                 bad.append(("harness-nondeterminism", "replaying a history on fresh objects reached a different state"))
             ops = prefix + (op,)
             bad.extend(w.apply(op))
@@ -251,8 +251,9 @@ def explore(make, roots, depth, env, label, describe=None):
     for d in range(1, depth + 1):
         nxt = []
         for root, hist, menu, c0 in frontier:
-            for op in menu:
-                c, m2, expand, ok, nt, fp = execute(root, hist, op, c0)
+            for k, op in enumerate(menu):
+                # replay determinism is verified once per state (on its first operation)
+                c, m2, expand, ok, nt, fp = execute(root, hist, op, c0 if k == 0 else None)
                 if res["evals"] % 64 == 0:
                     now = time.time()
                     if hb is not None and now - t_last > 1.0:
